@@ -213,8 +213,6 @@ Lemma dec_plain c rest : (c =? 34) = false -> (c =? 92) = false -> (c <? 32) = f
   dec_body (c :: rest) = ocons c (dec_body rest).
 Proof. intros H1 H2 H3. cbn [dec_body]. rewrite H1, H2, H3. reflexivity. Qed.
 
-Ltac Zify.zify_post_hook ::= Z.div_mod_to_equations.
-
 Lemma dec_enc_char c rest : is_scalar c = true -> dec_body (enc_char c ++ rest) = ocons c (dec_body rest).
 Proof.
   intros Hs. unfold is_scalar in Hs. apply andb_prop in Hs as [Hs1 Hs2].
@@ -239,6 +237,9 @@ Proof.
       rewrite Hh. reflexivity.
     + set (v := c - 65536). set (hi := 55296 + v / 1024). set (lo := 56320 + v mod 1024).
       assert (Hv : v < 1048576) by (unfold v; lia).
+      assert (Hq : v / 1024 < 1024) by (apply N.div_lt_upper_bound; lia).
+      assert (Hr : v mod 1024 < 1024) by (apply N.mod_lt; lia).
+      assert (Hdm : v = 1024 * (v / 1024) + v mod 1024) by (apply N.div_mod; lia).
       assert (Hhi : hi < 65536 /\ 55296 <= hi /\ hi <= 56319) by (unfold hi; lia).
       assert (Hlo : lo < 65536 /\ 56320 <= lo /\ lo <= 57343) by (unfold lo; lia).
       unfold uesc, hex4. cbn [app]. rewrite dec_uesc, (unhex4_hex4 hi) by tauto.
@@ -248,7 +249,7 @@ Proof.
       rewrite (unhex4_hex4 lo) by tauto.
       assert (Hl : is_low lo = true).
       { unfold is_low. apply andb_true_intro; split; apply N.leb_le; tauto. }
-      rewrite Hl. f_equal. unfold join_surrogates, hi, lo, v. lia.
+      rewrite Hl. f_equal. unfold join_surrogates, hi, lo. fold v. assert (c = v + 65536) by (unfold v; lia). lia.
 Qed.
 
 Lemma dec_enc_body s : forallb is_scalar s = true -> dec_body (enc_body s ++ [34]) = Some s.
